@@ -7,7 +7,7 @@ from . import storeops
 PROP = "C19"
 LEVEL = "exploration"
 BUDGET = {"quick": 200, "thorough": 1500}
-NCASES = {"quick": 1800, "thorough": 30000}
+NCASES = {"quick": 3000, "thorough": 40000}
 RULE = ("phase 1 populates a filesystem store through a writable backend (seeded C05 history); phase 2 opens it read-only "
         "(flag from constructor argument or from the configuration dictionary, with/without memory cache, shared/separate "
         "metadata path) and runs C05 histories plus function-level calls, forget, forget_all, put_metadata, forget_cluster "
